@@ -67,9 +67,99 @@ fn content(rng: &mut Rng, n: usize) -> Vec<u8> {
     }
 }
 
+/// LSB-first bit writer for hand-made deflate streams (Huffman codes go in MSB first)
+struct BitW {
+    out: Vec<u8>,
+    acc: u32,
+    n: u32,
+}
+impl BitW {
+    fn bits(&mut self, v: u32, k: u32) {
+        for i in 0..k {
+            self.acc |= ((v >> i) & 1) << self.n;
+            self.n += 1;
+            if self.n == 8 {
+                self.out.push(self.acc as u8);
+                self.acc = 0;
+                self.n = 0;
+            }
+        }
+    }
+    fn code(&mut self, code: u32, k: u32) {
+        for i in (0..k).rev() {
+            self.bits((code >> i) & 1, 1);
+        }
+    }
+    fn finish(mut self) -> Vec<u8> {
+        if self.n > 0 {
+            self.out.push(self.acc as u8);
+        }
+        self.out
+    }
+}
+
+/// A legal deflate stream made of SEVERAL deflate blocks: stored, non-final blocks for
+/// `data[..len-tail]` cut at `cut`, then one final fixed-Huffman block that encodes the tail
+/// (a literal followed by a length-`tail-1` distance-1 match; the tail must be one repeated byte,
+/// 4..=11 bytes).  With `tail == 4` the final block takes exactly 4 bytes, so a single stored part
+/// gives `compressed length == content length + 5` — the signature of a one-block stored stream.
+fn multi_block_stream(data: &[u8], tail: usize, cut: usize) -> Option<Vec<u8>> {
+    if data.len() < tail || !(4..=11).contains(&tail) {
+        return None;
+    }
+    let (head, t) = data.split_at(data.len() - tail);
+    if t.iter().any(|b| *b != t[0]) || t[0] >= 144 {
+        return None;
+    }
+    let mut out = vec![];
+    let mut parts: Vec<&[u8]> = if cut > 0 && cut < head.len() { vec![&head[..cut], &head[cut..]] } else { vec![head] };
+    if head.is_empty() {
+        parts = vec![head];
+    }
+    for p in parts {
+        if p.len() > 65535 {
+            return None;
+        }
+        out.push(0x00); // BFINAL = 0, BTYPE = 00, rest of the byte is padding
+        out.extend_from_slice(&(p.len() as u16).to_le_bytes());
+        out.extend_from_slice(&(!(p.len() as u16)).to_le_bytes());
+        out.extend_from_slice(p);
+    }
+    let mut w = BitW { out: vec![], acc: 0, n: 0 };
+    w.bits(1, 1); // BFINAL
+    w.bits(1, 2); // BTYPE = 01 fixed Huffman
+    w.code(0x30 + t[0] as u32, 8); // literal < 144: 8-bit code 00110000 + value
+    let len = tail - 1; // 3..=10: length symbols 257..=264, 7-bit codes 0000001..=0001000, no extra bits
+    w.code((len - 2) as u32, 7);
+    w.code(0, 5); // distance code 0 = distance 1
+    w.code(0, 7); // end of block (symbol 256)
+    out.extend(w.finish());
+    Some(out)
+}
+
+fn inflate_ok(c: &[u8], d: &[u8]) -> bool {
+    crate::xinf::inflate_raw(c, d.len() + 16).map(|o| o == d).unwrap_or(false)
+}
+
 fn block_str(rng: &mut Rng, data: &[u8]) -> String {
     // raw, or deflated as a stored / fixed-Huffman / dynamic-Huffman stream
     let mode = if data.is_empty() { 0 } else { rng.below(5) };
+    // now and then a stream made of several deflate blocks (a non-final stored block first)
+    if data.len() >= 4 && data.len() < 16000 && rng.chance(1, 12) {
+        let tail = if rng.chance(1, 2) { 4 } else { rng.range(4, 11) as usize }.min(data.len());
+        let mut d = data.to_vec();
+        let b = rng.below(144) as u8;
+        let n = d.len();
+        for x in &mut d[n - tail..] {
+            *x = b;
+        }
+        let cut = if rng.chance(1, 2) { 0 } else { rng.below((n - tail + 1) as u64) as usize };
+        if let Some(c) = multi_block_stream(&d, tail, cut) {
+            if inflate_ok(&c, &d) {
+                return format!("d{}/{}", hex(&d), hex(&c));
+            }
+        }
+    }
     let c = match mode {
         0 => return format!("r{}", hex(data)),
         1 => deflate_raw(data, 0, Z_DEFAULT_STRATEGY),
